@@ -22,7 +22,7 @@ import re
 
 
 def register(gen, T):
-    from rustsrc import ExtractError, fn_body, first_match, match_arms, lean_str, normws, split_top
+    from rustsrc import ExtractError, fn_body, impl_fn_body, first_match, match_arms, lean_str, normws, split_top
 
     @gen("MacroTables")
     def macro_tables():
@@ -217,6 +217,35 @@ def register(gen, T):
         out.append(f"def maxIncludeDepth : Nat := {mm.group(1)}\n\n")
         out.append("/-- the depth starts at 0, is tested before the file is loaded, and is raised by one around the recursive call -/\n")
         out.append(f"def includeDepthCheckedBeforeLoad : Bool := {'true' if shape_ok else 'false'}\n\n")
+
+        # --- FileLoader::load: which key identifies a file (fix d66a6d7) --------------------------------------
+        fl = normws(impl_fn_body(pre, r"FileLoader", "load"))
+        identity = []
+        for pat in (r'let id = match (self\.file_name_remap\.get\(file_name\)) \{ Some\(id\) => \*id, None => \{',
+                    r'let file_data = (self\.include_handler\.load\(file_name, parent_name\))\?;',
+                    r'let id = match (self\.real_name_remap\.get\(&file_data\.real_name\)) \{ Some\(id\) => \*id, None => \{',
+                    r'(self\.real_name_remap\.insert\(real_name, id\));',
+                    r'(self\.file_name_remap\.insert\(file_name\.to_string\(\), id\));',
+                    r'if (self\.pragma_once_files\.contains\(&id\)) \{ Ok\(InputFile \{ file_id: id, contents: String::new\(\), \}\) \}',
+                    r'let contents = (self\.source_manager\.get_contents\(id\));'):
+            m5 = re.search(pat, fl)
+            if not m5:
+                raise ExtractError(f"FileLoader::load: pattern {pat!r} not found")
+            identity.append(m5.group(1))
+        mo = normws(impl_fn_body(pre, r"FileLoader", "mark_as_pragma_once"))
+        if mo != "self.pragma_once_files.insert(file_id);":
+            raise ExtractError(f"mark_as_pragma_once: body is {mo!r}")
+        identity.append(mo.rstrip(';'))
+        out.append("/-- `FileLoader::load` / `mark_as_pragma_once`: the id of a file is looked up by include name (cache), then by the\n"
+                   "real name the handler reports; the once-set holds ids; contents come from the source manager -/\n")
+        out.append("def fileIdentity : List String := " + T.lean_list(lean_str(x) for x in identity) + "\n\n")
+
+        # the API define that contains a line end is rejected before Macro::parse (fix 3c81ed5)
+        pif0 = normws(fn_body(pre, "preprocess_initial_file"))
+        m6 = re.search(r'if (tokens\.iter\(\)\.any\(\|t\| t\.0 == Token::Endline\)) \{ return Err\(PreprocessError::InvalidDefine\('
+                       r'SourceLocation::UNKNOWN\)\); \} let macro_def = Macro::parse\(&tokens\)\?;', pif0)
+        out.append("/-- an API define whose tokens contain `Token::Endline` is `InvalidDefine`, tested right before `Macro::parse` -/\n")
+        out.append(f"def apiDefineLineBreakRejected : Bool := {'true' if m6 else 'false'}\n\n")
 
         # initial defines go through the `#define` path: each (name, value) becomes the located text "name value",
         # is lexed without a trailing line end, parsed by Macro::parse, and replaces an earlier macro of that name
